@@ -913,6 +913,46 @@ theorem C13_accept_ipv6_canonical (idna etld : Bytes → Bool) (scheme : Bytes) 
 /-- Non-vacuity: `2001:db8::1` is the canonical text of an address that is not IPv4-mapped. -/
 example : Net.render6 [0x2001, 0xdb8, 0, 0, 0, 0, 0, 1] = Spec.b "2001:db8::1" ∧ Net.is4in6 [0x2001, 0xdb8, 0, 0, 0, 0, 0, 1] = false := by decide
 
+/-- **C13 (accepted IPv6 hosts are canonical texts, no oracle).** The converse of
+`C13_accept_ipv6_canonical`: whenever a pattern with an IPv6 host is accepted (address library = the model of
+`net/netip`), the host is the canonical text `Net.render6 gs` of the address `gs` it parses to, and that
+address is not IPv4-mapped (zoned literals do not even reach this point). Together: the accepted IPv6 hosts
+are exactly the canonical texts of the addresses that are not IPv4-mapped. -/
+theorem C13_accepted_ipv6_form (idna etld : Bytes → Bool) (s : Bytes) (p : Pattern)
+    (h : parsePattern (Net.std idna etld) s = .ok p)
+    (hk : p.kind = .loopbackIP ∨ p.kind = .nonLoopbackIP) (h6 : firstIPMark p.value = some 58) :
+    ∃ gs, Net.fields p.value = some gs ∧ Net.is4in6 gs = false ∧ p.value = Net.render6 gs := by
+  obtain ⟨info, hi, hz, h4, hc⟩ := C13_reject_ipv6_defects (Net.std idna etld) s p h hk h6
+  have hi' : Net.ip6 p.value = some info := hi
+  unfold Net.ip6 at hi'
+  cases hcut : Bytes.cutAt 37 p.value with
+  | some r =>
+    obtain ⟨before, after⟩ := r
+    simp only [hcut] at hi'
+    split at hi'
+    · cases hi'
+    · cases hf : Net.fields before with
+      | none => simp [hf] at hi'
+      | some gs =>
+        simp only [hf, Option.some.injEq] at hi'
+        rw [← hi'] at hz
+        simp at hz
+  | none =>
+    simp only [hcut] at hi'
+    cases hf : Net.fields p.value with
+    | none => simp [hf] at hi'
+    | some gs =>
+      simp only [hf] at hi'
+      have hne : ((none : Option Bytes) == some []) = false := by decide
+      simp only [hne, Bool.false_eq_true, if_false, Option.some.injEq] at hi'
+      refine ⟨gs, rfl, ?_, ?_⟩
+      · rw [← hi'] at h4; exact h4
+      · rw [← hi'] at hc h4
+        simp only [] at hc h4
+        rw [h4] at hc
+        simp only [Bool.false_eq_true, if_false] at hc
+        exact hc.symm
+
 /-- **The IPv6 hypothesis of the tree theorems, discharged.** `C01_config`, `C06_roundtrip`, `C15_full` … assume that
 the IPv6 oracle accepts no text starting with `*`. The driver answers IPv6 questions with the model of
 `net/netip` (`Net.ip6`, Model/Net.lean, cross-checked against the library on every host the harness reports),
@@ -951,5 +991,6 @@ example : Net.ip6 (Spec.b "1::2::3") = none := by decide
 #print axioms C13_parse_sound
 #print axioms C13_netip_hext
 #print axioms C13_accept_ipv6_canonical
+#print axioms C13_accepted_ipv6_form
 
 end Cors
